@@ -1840,11 +1840,11 @@ def nodeIoMap (wc : World) (vm0 : VMap) (nd : NodeS) : VMap :=
   ioMap nd.inputs (nd.inputs.map (Option.map (tgt vm0))) nd.outputs
     (List.range' wc.values.length nd.outputs.length)
 
-/-- the node `clone_node` creates -/
-def clonedNode (wc : World) (vm0 : VMap) (nd : NodeS) (subs : List GId) : NodeS :=
+/-- the node `clone_node` creates (`vm1`: the global value map after the outputs were entered) -/
+def clonedNode (wc : World) (vm0 vm1 : VMap) (nd : NodeS) (subs : List GId) : NodeS :=
   { inputs := nd.inputs.map (Option.map (tgt vm0)),
     outputs := List.range' wc.values.length nd.outputs.length,
-    dev := remapDev (nodeIoMap wc vm0 nd) nd.dev,
+    dev := remapDev (nodeIoMap wc vm0 nd ++ vm1) nd.dev,
     subgraphs := subs }
 
 /-- creating the clone of node `nd` once its inputs have been resolved (through the map `vm0` the cloner
@@ -1853,7 +1853,7 @@ theorem buildNode_inv {w : World} {cfgs : List CId} {wc : World} {vm vm0 : VMap}
     (h : CloneInv w cfgs wc vm) (h0 : VmOK w wc vm0) (hnd : NodeOK w nd) (hreg : ∀ nc ∈ nd.dev, nc.cfg ∈ cfgs)
     {subs : List GId} {w1 : World} {vm1 : VMap}
     (hv1 : w1.values = wc.values ++ nd.outputs.map wc.value) (hc1 : w1.cfgs = wc.cfgs)
-    (hm1 : w1.models = wc.models) (hn1 : w1.nodes = wc.nodes ++ [(clonedNode wc vm0 nd subs)])
+    (hm1 : w1.models = wc.models) (hn1 : w1.nodes = wc.nodes ++ [(clonedNode wc vm0 vm1 nd subs)])
     (hvm1 : (nd.outputs.zip (List.range' wc.values.length nd.outputs.length)).reverse ++ vm = vm1) :
     CloneInv w cfgs w1 vm1 ∧ w1.nodes.length = wc.nodes.length + 1 := by
   have hlen : nd.outputs.length = (List.range' wc.values.length nd.outputs.length).length := by simp
@@ -1898,7 +1898,7 @@ theorem buildNode_inv {w : World} {cfgs : List CId} {wc : World} {vm vm0 : VMap}
       rw [e] at h1
       exact Nat.lt_irrefl _ (Nat.lt_of_lt_of_le h2 h1)
   -- the new node
-  have hnewok : NodeOK w1 (clonedNode wc vm0 nd subs) ∧ ∀ nc ∈ (clonedNode wc vm0 nd subs).dev, nc.cfg ∈ cfgs := by
+  have hnewok : NodeOK w1 (clonedNode wc vm0 vm1 nd subs) ∧ ∀ nc ∈ (clonedNode wc vm0 vm1 nd subs).dev, nc.cfg ∈ cfgs := by
     obtain ⟨hids, hndup, hall⟩ := hnd
     -- where `tgt vm0` sends a value of the source world
     have htgt : ∀ v, v < w.values.length → tgt vm0 v < wc.values.length ∧
@@ -1944,12 +1944,19 @@ theorem buildNode_inv {w : World} {cfgs : List CId} {wc : World} {vm vm0 : VMap}
           exact vm_inj h0.inj (vlookup_mem hlx) (vlookup_mem hly)
     -- the io map on a value of the node
     have hlook : ∀ v, InIO nd v → ∃ b,
-        vlookup (nodeIoMap wc vm0 nd) v = some b ∧
-        InIO (clonedNode wc vm0 nd subs) b ∧ b < w1.values.length ∧ (w1.value b).shape = (w.value v).shape ∧
+        vlookup (nodeIoMap wc vm0 nd ++ vm1) v = some b ∧
+        InIO (clonedNode wc vm0 vm1 nd subs) b ∧ b < w1.values.length ∧ (w1.value b).shape = (w.value v).shape ∧
         ((v ∈ nd.outputs ∧ (v, b) ∈ (nd.outputs.zip (List.range' wc.values.length nd.outputs.length)).reverse) ∨
          (v ∉ nd.outputs ∧ b = tgt vm0 v)) := by
       intro v hv
       have hvlt : v < w.values.length := InIO.lt hids hv
+      rw [vlookup_append]
+      suffices hs : ∃ b, vlookup (nodeIoMap wc vm0 nd) v = some b ∧
+          InIO (clonedNode wc vm0 vm1 nd subs) b ∧ b < w1.values.length ∧ (w1.value b).shape = (w.value v).shape ∧
+          ((v ∈ nd.outputs ∧ (v, b) ∈ (nd.outputs.zip (List.range' wc.values.length nd.outputs.length)).reverse) ∨
+           (v ∉ nd.outputs ∧ b = tgt vm0 v)) by
+        obtain ⟨b, hb, rest⟩ := hs
+        exact ⟨b, by simp [hb], rest⟩
       unfold nodeIoMap
       rw [ioMap_eq]
       by_cases hvo : v ∈ nd.outputs
@@ -2018,9 +2025,9 @@ theorem buildNode_inv {w : World} {cfgs : List CId} {wc : World} {vm vm0 : VMap}
       obtain ⟨a, b, c, d⟩ := hall nc hnc
       refine ⟨by rw [hc1, h.cfgsEq]; exact a, b, ?_, ?_⟩
       · -- injectivity of the io map on the spec targets
-        show ((nc.specs.map (remapSpec (nodeIoMap wc vm0 nd))).map (·.value)).Nodup
-        have : (nc.specs.map (remapSpec (nodeIoMap wc vm0 nd))).map (·.value)
-            = (nc.specs.map (·.value)).map (fun v => (vlookup (nodeIoMap wc vm0 nd) v).getD v) := by
+        show ((nc.specs.map (remapSpec (nodeIoMap wc vm0 nd ++ vm1))).map (·.value)).Nodup
+        have : (nc.specs.map (remapSpec (nodeIoMap wc vm0 nd ++ vm1))).map (·.value)
+            = (nc.specs.map (·.value)).map (fun v => (vlookup (nodeIoMap wc vm0 nd ++ vm1) v).getD v) := by
           rw [List.map_map, List.map_map]
           apply List.map_congr_left
           intro s hs
@@ -2069,7 +2076,7 @@ theorem buildNode_inv {w : World} {cfgs : List CId} {wc : World} {vm vm0 : VMap}
   obtain ⟨vex, hvex⟩ := h.vals
   refine ⟨⟨hextw, by rw [hc1, h.cfgsEq], by rw [hm1, h.models], ?_, hvmok,
     ⟨vex ++ nd.outputs.map wc.value, by rw [hv1, hvex, List.append_assoc]⟩⟩, by rw [hn1]; simp⟩
-  refine ⟨extra ++ [(clonedNode wc vm0 nd subs)], by rw [hn1, hex, List.append_assoc], ?_⟩
+  refine ⟨extra ++ [(clonedNode wc vm0 vm1 nd subs)], by rw [hn1, hex, List.append_assoc], ?_⟩
   intro x hx
   simp only [List.mem_append, List.mem_singleton] at hx
   rcases hx with hx | hx
@@ -2086,7 +2093,7 @@ theorem cloneNode_parts {rec : CSt → GId → Option (CSt × GId)} {st st' : CS
       st'.newNodes = st1.newNodes ++ [st1.w.nodes.length] ∧ st'.newGraphs = st1.newGraphs ∧
       st'.w.values = st1.w.values ++ nd.outputs.map st1.w.value ∧ st'.w.cfgs = st1.w.cfgs ∧
       st'.w.models = st1.w.models ∧
-      st'.w.nodes = st1.w.nodes ++ [clonedNode st1.w st.vm nd subs] := by
+      st'.w.nodes = st1.w.nodes ++ [clonedNode st1.w st.vm st'.vm nd subs] := by
   unfold cloneNode at hc
   cases hci : cloneInputs st.allow st.pending st.vm nd.inputs with
   | none => simp [hci] at hc
@@ -2097,10 +2104,13 @@ theorem cloneNode_parts {rec : CSt → GId → Option (CSt × GId)} {st st' : CS
     | none => simp [hcs] at hc
     | some r =>
       obtain ⟨st1, subs⟩ := r
-      simp only [hcs, Option.some.injEq, Prod.mk.injEq] at hc
-      obtain ⟨rfl, rfl⟩ := hc
-      subst hins
-      exact ⟨st1, subs, rfl, rfl, rfl, rfl, rfl, rfl, rfl, rfl, rfl⟩
+      simp only [hcs] at hc
+      split at hc
+      · cases hc
+      · simp only [Option.some.injEq, Prod.mk.injEq] at hc
+        obtain ⟨rfl, rfl⟩ := hc
+        subst hins
+        exact ⟨st1, subs, rfl, rfl, rfl, rfl, rfl, rfl, rfl, rfl, rfl⟩
 
 /-- the pieces of a successful `cloneGraphBody` -/
 theorem cloneGraphBody_parts {rec : CSt → GId → Option (CSt × GId)} {src : World} {st st' : CSt}
